@@ -390,6 +390,23 @@ def run(ctx):
             for c in res.children:
                 tids = [t.attrs.get("id") for t in c.children]
                 r4.check(tids == ["/d/q:label", "l-0"] and all(t.tag == "text" for t in c.children), f"itext[default_language={dl!r}, languages={l1},{l2}]:{c.attrs.get('lang')}", "one text element per id", itx.loc(), why_fail=f"{tids}")
+    # the same wording in several languages (untranslated copies, names, a bare ${reference}): each translation still gets
+    # its own text element (a DOM node has one parent - a node built once and appended twice ends up in the last only)
+    for desc, v1, v2 in (("identical plain texts", "Same", "Same"), ("identical texts with a reference", "Hello ${p}", "Hello ${p}"), ("a bare reference in both", "${p}", "${p}"),
+                         ("identical hint and guidance with references", {"long": "H ${p}", "guidance": "G ${p}"}, {"long": "H ${p}", "guidance": "G ${p}"})):
+        it = ctx.interp("C07.R4", hooks={"fnname:node": node_hook, "fnname:insert_output_values": lambda i, a, k, n: ((lambda t: (t, "${" in t))(([x for x in a if isinstance(x, str)] or ["?"])[0]))})
+        it.reset([])
+        e1 = dict(v1) if isinstance(v1, dict) else {"long": v1}
+        e2 = dict(v2) if isinstance(v2, dict) else {"long": v2}
+        tr = {"en": {"/d/q:label": dict(e1, type="question") if "guidance" not in e1 else {"long": "L", "type": "question"}, "/d/q:hint": dict(e1), "l-0": dict(e1)},
+              "fr": {"/d/q:label": dict(e2, type="question") if "guidance" not in e2 else {"long": "L", "type": "question"}, "/d/q:hint": dict(e2), "l-0": dict(e2)}}
+        so = Obj(scls, {"_translations": tr, "default_language": "en"}, name="survey")
+        try:
+            res = it.call_function(itx, [so], {}, None, itx.node)
+            per_lang = {c.attrs.get("lang"): [t.attrs.get("id") for t in c.children if isinstance(t, NodeVal)] for c in res.children} if isinstance(res, NodeVal) else None
+        except Raised as e:
+            per_lang = f"raises {e.exc_name}{e.exc_args}"
+        r4.check(per_lang == {"en": ["/d/q:label", "/d/q:hint", "l-0"], "fr": ["/d/q:label", "/d/q:hint", "l-0"]}, f"itext[{desc}]", "every translation holds a text element for every id", itx.loc(), why_fail=repr(per_lang)[:200])
     rules.append(r4)
 
     # ------------------------------------------------------------------ R5 sentinel
